@@ -281,6 +281,29 @@ pub fn run(tier: &str) -> i32 {
             (Network::Testnet, 1, 4, vec![1], few.clone(), 1, vec![0, 1], vec![0, 1], 2),
         ]
     };
+    // the same with every configuration field away from its default (syncing disabled,
+    // lazy fees, sync gate on, custom fees, watchdog canister, burn_cycles, blocks source)
+    let exotic_parts: Vec<(u32, usize)> = if quick { vec![(1, 3)] } else { vec![(1, 4), (2, 4)] };
+    for (theta, n) in exotic_parts {
+        let mut alpha = ledger_alphabet(n, &[1], 1);
+        alpha.bodies = vec![BODY_CB, BODY_MULTI];
+        alpha.budgets = vec![0, 1];
+        alpha.upgrades = vec![0, 1];
+        alpha.max_upgrades = 1;
+        let mut cfg = WorldCfg::regtest(theta);
+        cfg.syncing = false;
+        cfg.lazy_fees = true;
+        cfg.disable_if_not_synced = true;
+        cfg.exotic = true;
+        cfg.fees = Some(ic_btc_interface::Fees::testnet());
+        let m = ChainModel { cfg, alpha, oracle: C09 { continuation: 1 } };
+        let e = explore(&m, &Limits::new(2, if quick { 300 } else { 6000 }));
+        rep.absorb(
+            &format!("LEDGER+Upgrade non-default configuration theta={} n={}", theta, n),
+            e,
+            json!({"threshold": theta, "max_blocks": n, "configuration": "syncing disabled, lazy fees, sync gate on, testnet fee table, watchdog canister, burn_cycles, custom blocks source"}),
+        );
+    }
     for (net, theta, n, diffs, bodies, sp, budgets, ups, cont) in parts {
         let mut alpha = ledger_alphabet(n, &diffs, sp);
         alpha.bodies = bodies.clone();
